@@ -1,0 +1,16 @@
+//go:build verif
+
+// Package verifhooks re-exports internal/di for the out-of-module verification
+// harness in /verif (build tag "verif" only; not part of normal builds).
+package verifhooks
+
+import (
+	"github.com/alpacahq/marketstore/v4/internal/di"
+	"github.com/alpacahq/marketstore/v4/utils"
+)
+
+// Container is the server's dependency-injection container.
+type Container = di.Container
+
+// NewContainer builds the container exactly as cmd/start does.
+func NewContainer(cfg *utils.MktsConfig) *Container { return di.NewContainer(cfg) }
